@@ -64,12 +64,14 @@ def evaluate_inprocess(spec):
     b, wd, inpath, klpath = _write(spec, "detA")
     spec_b = dict(spec)
     spec_b["conns"] = [dict(c, seed=c["seed"] + 1) for c in spec["conns"]][::-1]
+    if spec.get("opts_b") is not None:
+        spec_b["opts"] = spec["opts_b"]        # the other run may also use other options (-p, -m, -a, -c)
     bb, _, inb, klb = _write(spec_b, "detB")
     out = os.path.join(wd, "det.out.pcapng")
 
-    def run(inp, kl, reset):
+    def run(inp, kl, reset, which="A"):
         # the output path is NOT cleaned between the runs: whatever an earlier run (or anything else) left there must not matter
-        r = runner.run_inproc(scenario.argv_for(spec, inp, kl, out), reset=reset)
+        r = runner.run_inproc(scenario.argv_for(spec if which == "A" else spec_b, inp, kl, out), reset=reset)
         return r, _sha(out)
     sig, detail = None, ""
     # references: what a fresh process exports for A and for B
@@ -77,7 +79,7 @@ def evaluate_inprocess(spec):
     for nm, inp, kl in (("A", inpath, klpath), ("B", inb, klb)):
         if os.path.exists(out):
             os.unlink(out)
-        r = runner.run_subprocess(scenario.argv_for(spec, inp, kl, out), hashseed="0")
+        r = runner.run_subprocess(scenario.argv_for(spec if nm == "A" else spec_b, inp, kl, out), hashseed="0")
         if r.code != 0 or r.exc:
             sig, detail = f"subprocess run failed: {r.exc_sig or r.code}", (r.stderr or "")[-300:]
             break
@@ -88,7 +90,7 @@ def evaluate_inprocess(spec):
         seq = [("A", inpath, klpath, "A"), ("A again", inpath, klpath, "A"), ("B after A", inb, klb, "B"), ("A after B", inpath, klpath, "A"),
                ("B again", inb, klb, "B")]
         for name, inp, kl, which in seq:
-            r, d = run(inp, kl, False)
+            r, d = run(inp, kl, False, which)
             if r.exc or r.code:
                 sig, detail = f"in-process repetition: run '{name}' fails ({r.exc_sig or r.code})", (r.exc or "")[-300:]
                 break
@@ -124,7 +126,7 @@ def spec_strategy(draw):
     conns = []
     for i in range(n):
         k = draw(st.sampled_from(["quic", "quic", "tls"]))
-        ep = strategies.endpoints(idx=i)
+        ep = strategies.endpoints(idx=i, sports=(443, 443, 8443))
         if k == "tls":
             c = draw(strategies.tls_conn(max_records=4, max_len=200, ep=ep, delivery=strategies.tcp_delivery(modes=("rec", "cuts"), wrap=False)))
         else:
@@ -145,6 +147,10 @@ def spec_strategy(draw):
           "hs": [draw(st.integers(2, 4000)), draw(st.integers(2, 4000))],
           "opts": {"a": draw(st.booleans())}}
     # containers that carry less than the usual: packets without a timestamp of their own (Simple Packet Blocks), second resolution
+    # the other capture of the in-process stage may be run with other options; some servers listen on a port that only those options select
+    if draw(st.booleans()):
+        sc["opts_b"] = {"a": draw(st.booleans()), "c": draw(st.booleans()), "p": draw(st.lists(st.sampled_from([8443, 4433, 50000]), min_size=1, max_size=2)),
+                        "m": draw(st.sampled_from([None, [], ["443:8081", "8443:9443"]]))}
     cont = draw(st.sampled_from([None, None, None, {"spb": [1, 0]}, {"spb": [2, 1]}, {"spb": [3, 0]}, {"tsresol": 0}, {"tsresol": 3, "tsoffset": 7}]))
     if cont:
         sc["container"] = cont
@@ -162,7 +168,7 @@ def stages(tier):
 RULE = ("scenarios of 1-3 TLS/QUIC connections (QUIC with several CIDs of different lengths, incl. NEW_CONNECTION_ID CIDs that extend or are a "
         "prefix of a CID in use) are exported (a) by 4 fresh `python -m tlexport.main` processes with PYTHONHASHSEED 0 / 1 / two drawn values, three "
         "working directories and perturbed TZ/LANG/COLUMNS/HOME/LC_ALL, (b) in one process: A, A again, B, A, B with no reset between the runs (B = another capture with another key log of the same "
-        "size), all writing to the same output path, which initially holds a longer stale file; each compared with what a fresh process exports for the same input; oracle: sha256 of the output file identical for the same "
+        "size, in half of the cases run with other options: -p lists that select a port some servers use, -m, -a, -c), all writing to the same output path, which initially holds a longer stale file; each compared with what a fresh process exports for the same input; oracle: sha256 of the output file identical for the same "
         "(capture, secrets, options); some captures store packets in Simple Packet Blocks (no timestamps) or with a coarse if_tsresol.  Non-trivial: >= 2 sessions or >= 3 CIDs; evaluations count "
         "TLExport runs")
 ASSUMPTIONS = ["the capture and key-log files are byte-identical between the runs (same paths)"]
